@@ -226,6 +226,11 @@ def c20(run, replay):
             for procs in (1, 1, 0, 0):      # repeated, with one P and with all: per-P caches make reuse of a freed object a matter of placement
                 scen.append({"transport": tr, "order": "free", "procs": procs,
                              "calls": [{"len": 100, "pattern": "pasteofpeer", "src": "mem"}, {"len": L2, "pattern": "small", "src": "slow", "after_eof_of": 1}]})
+    # the upload and the request carrying its id reach the server at the same instant (offsets of 0-80 microseconds either way)
+    for _ in range(200 if thorough else 40):
+        scen.append({"transport": "http", "order": "tie", "calls": [{"len": rnd.choice([1, 100]), "pattern": "readall", "src": "mem"}]})
+    # ... and in process, behind a spin barrier, offsets swept in quarter-microsecond steps
+    scen.append({"transport": "inproc", "order": "tie", "tierounds": 30000 if thorough else 8000, "calls": []})
     # handlers that wait for each other before reading: every upload must be able to proceed independently
     for k in ([3, 4, 4] if thorough else [3, 4]):
         scen.append({"transport": rnd.choice(["ws", "http"]), "order": "free",
@@ -478,6 +483,8 @@ def fault_scenarios(rnd, thorough):
         scen.append({"sc": "c03.repeat", "args": {"losses": 5}})
     for n, skew in ((60, 0), (200, 300)):
         scen.append({"sc": "c03.cancelkill", "args": {"n": n, "skewus": skew}})
+    for nore in (True, False):      # calls handed over while the connection goroutine is stuck in a write, then a reset
+        scen.append({"sc": "c03.queued", "args": {"n": 12, "noreconnect": nore}})
     scen.append({"sc": "trap.staledelete", "args": {}})     # TLC counterexample of WsRpc_c03_nostalefix.cfg, forced with gates
     for errors in (False, True):
         for hold in ([1, 20, 60] if thorough else [20]):
@@ -812,6 +819,7 @@ def c18(run, replay):
     perturb(rnd, scen, CHAN_POINTS + HOOK_POINTS_REQ, 0.3)
     scen.append({"sc": "c18.badchan", "args": {}})
     scen.append({"sc": "c18.backlog", "args": {"n": 40000}})      # closed with tens of thousands of values unread
+    scen.append({"sc": "c18.closeblocked", "args": {"holdms": 1500, "reverse": True}})      # closed while a handler goroutine holds the writer
     scen.append({"sc": "trap.closerace", "args": {}})
     scen.append({"sc": "c18.otherclosers", "args": {}})
     trace, viol = run_ws_scenarios(run, wd, scen, "c18", timeout=3000)
@@ -914,6 +922,7 @@ def c14(run, replay):
             args["delay"] = ["wl.enter"] + rnd.sample(["fwd.val", "fwd.close", "fwd.reg", "h.resp.pre", "lazy.acquire.pre", "write.req.pre", "ctxasync.done",
                                                         "cancel.enq.pre", "redial.swap"], 3)
         scen.append({"sc": "c14.writers", "args": args})
+    scen.append({"sc": "c18.closeblocked", "args": {"holdms": 1500, "reverse": True}})      # the close frame while a handler goroutine holds the writer
     for i in range(6 if thorough else 3):    # many cancel frames written at the same instant, next to large requests
         scen.append({"sc": "c14.writers", "args": {"rounds": 1, "n": 4, "reconnect": False, "pingus": 800, "procs": 0, "burst": rnd.choice([12, 24])}})
     trace, viol = run_ws_scenarios(run, wd, scen, "c14", hooks=True, timeout=3000)
@@ -1008,6 +1017,8 @@ def c16(run, replay):
     for lose in ("before", "request", "response"):
         for pos in (["cut-hdr", "cut-payload", "cut-last", "before", "after"] if thorough else rnd.sample(["cut-hdr", "cut-payload", "cut-last", "before", "after"], 2)):
             scen.append({"sc": "c16.reverse", "args": {"clients": 2, "calls": 2, "reverse": True, "lose": lose, "pos": pos}})
+    scen.append({"sc": "c16.reverse", "args": {"clients": 2, "calls": 2, "reverse": True, "lose": "queued"}})
+    scen.append({"sc": "c16.reverse", "args": {"clients": 3, "calls": 2, "reverse": True, "notifycb": True}})
     scen.append({"sc": "c16.reverse", "args": {"clients": 2, "calls": 2, "reverse": False}})
     scen.append({"sc": "c16.reverse", "args": {"clients": 2, "calls": 2, "reverse": True, "transport": "http"}})
     perturb(rnd, scen, HOOK_POINTS_REQ + ["closeinflight.pre", "rd.err", "main.incoming"], 0.4)
